@@ -45,7 +45,7 @@ CFG = {
     ],
     "manifest": {
         "category": "proof",
-        "text": "Unbounded Coq theorems (22, closed under the global context) about a Gallina model of the macros' "
+        "text": "Unbounded Coq theorems (23, closed under the global context) about a Gallina model of the macros' "
                 "argument handling (Macro.v: validate, VersionRange::parse, parse_semver, to_api_endpoint_fn's builder "
                 "sequence, ApiEndpoint::new/new_for_types) and of the doc-comment algorithm (DocComment.v: "
                 "normalize_comment_string, ExtractedDoc::from_attrs): every field of the produced endpoint equals the "
@@ -55,7 +55,9 @@ CFG = {
                 "routing and documents; served iff the version is in the declared range; documented iff published "
                 "and in range; summary ++ description keeps the non-blank characters of the normalised lines in order "
                 "(induction over the line list); the comment's own text is kept outside the known class K19 and "
-                "always shortened inside it; version literal / pair-order / wildcard / content-type refusals. "
+                "always shortened inside it; version literal / pair-order / wildcard / content-type refusals; the model "
+                "satisfies the executable specification used by the judge for every accepted declaration outside K19 "
+                "(C19_model_meets_spec). "
                 "Correspondence: translation validation of the real macros on 150 (quick) / 450 (thorough) generated "
                 "declarations compiled in three styles, plus 98 refusal probes compiled with cargo check; the "
                 "specification and the model are evaluated in Coq on each observation.",
